@@ -392,6 +392,9 @@ func lgRunSchedule(t *testing.T, sc lgSched) (lines []map[string]any, hits map[s
 			h.logConfig.Segment = storage.SegmentWriterConfig{IndexIntervalMessages: int32(sc.Interval)}
 			h.logConfig.CacheEnabled = sc.Cache
 			h.logConfig.ReadAheadSegments = 0
+			if sc.Cache {
+				h.logConfig.ReadAheadSegments = 2 // read-ahead prefetch goroutines fill the cache behind reads and commits
+			}
 			h.cache = cache.NewSegmentCache(1 << 20)
 			h.flushOnAck = true
 			h.autoCreateTopics = false
@@ -538,7 +541,27 @@ func lgRunSchedule(t *testing.T, sc lgSched) (lines []map[string]any, hits map[s
 				m["o"], m["mb"], m["code"], m["hw"] = o, 200, int(pr.ErrorCode), pr.HighWatermark
 				fetches = append(fetches, m)
 			}
-			r.emit(map[string]any{"src": "reader", "ev": "Grid", "hw": hw, "next": st.Next, "ref": refl, "reads": reads, "fetches": fetches, "st": st})
+			// the "latest" answer of ListOffsets is the published end offset as clients see it
+			lo := int64(-1)
+			{
+				req := kmsg.NewPtrListOffsetsRequest()
+				req.Version, req.ReplicaID = 4, -1
+				lt := kmsg.NewListOffsetsRequestTopic()
+				lt.Topic = lgTopic
+				lp := kmsg.NewListOffsetsRequestTopicPartition()
+				lp.Partition, lp.Timestamp, lp.CurrentLeaderEpoch = 0, -1, -1
+				lt.Partitions = append(lt.Partitions, lp)
+				req.Topics = append(req.Topics, lt)
+				cid := "reader"
+				if out, err := h.handleListOffsets(readerCtx, &protocol.RequestHeader{APIKey: 2, APIVersion: 4, CorrelationID: 2, ClientID: &cid}, req); err == nil && out != nil {
+					resp := kmsg.NewPtrListOffsetsResponse()
+					resp.SetVersion(4)
+					if body, ok := protocol.SkipResponseHeader(resp.Key(), 4, out); ok && resp.ReadFrom(body) == nil && len(resp.Topics) == 1 && len(resp.Topics[0].Partitions) == 1 && resp.Topics[0].Partitions[0].ErrorCode == 0 {
+						lo = resp.Topics[0].Partitions[0].Offset
+					}
+				}
+			}
+			r.emit(map[string]any{"src": "reader", "ev": "Grid", "hw": hw, "lo": lo, "next": st.Next, "ref": refl, "reads": reads, "fetches": fetches, "st": st})
 		}
 
 		produce := func(p string, n int, kind string) {
